@@ -274,7 +274,11 @@ def check_poly_case(ctx, case):
         _outcome(ctx, "poly/MAP/estimate")
         g = grad(xm)
         gscale = max(1.0, np.max(np.abs(H)))
-        worse = [d for d in _neighbours() if phi(xm + d) < phi(xm) - 1e-12 * max(1.0, abs(phi(xm)))]
+        # a neighbour counts as better only beyond what the residual gradient the solver is allowed to leave (|g| <= gtol)
+        # explains to first order: phi(x + d) - phi(x) >= g.d >= -|g| |d| at a point that is a minimiser up to gtol
+        gn = float(np.linalg.norm(g))
+        worse = [d for d in _neighbours()
+                 if phi(xm + d) < phi(xm) - gn * float(np.linalg.norm(d)) - 1e-12 * max(1.0, abs(phi(xm)))]
         if np.max(np.abs(g)) > GTOL * gscale or worse:
             ctx.mismatch(sig + "/" + tag, case, "MAP estimate of the polynomial problem is not a local maximiser of the posterior "
                          "(gradient of the spec's polynomial objective not ~ 0 or a nearby point has larger density)",
@@ -363,7 +367,9 @@ def check_routes(ctx, table):
             if L.rel_err(xm, mu) > tol:
                 ctx.mismatch(sig, {"kind": "route", "row": row}, "MAP of a linear-Gaussian problem is not the closed-form posterior mean", expected=mu, observed=xm)
         elif pt in ("Gaussian", "GMRF"):
-            worse = [d for d in _neighbours() if nlp(xm + d) < nlp(xm) - 1e-10 * max(1.0, abs(nlp(xm)))]
+            # first-order slack GTOL |d|: the solver may stop with a gradient of size gtol (see GTOL)
+            worse = [d for d in _neighbours()
+                     if nlp(xm + d) < nlp(xm) - GTOL * float(np.linalg.norm(d)) - 1e-10 * max(1.0, abs(nlp(xm)))]
             if worse:
                 ctx.mismatch(sig, {"kind": "route", "row": row}, "MAP estimate has a nearby point with larger posterior density",
                              expected="local maximiser", observed={"x": xm, "better": worse[:3]})
@@ -412,7 +418,8 @@ def run(ctx):
         check_map_case(ctx, c)
         if c["geo"] == "cont" and c["n"] >= 2:
             check_map_kl(ctx, c)
-    pcs = [c for c in poly_cases if c["pd"]]
+    # TLC's workers emit in arbitrary order: fix the order before the seed selects a third of the cases
+    pcs = sorted((c for c in poly_cases if c["pd"]), key=lambda c: (c["model"], c["xs"], c["r"], c["pe"], c["px"]))
     if ctx.tier == "quick":
         pcs = [c for i, c in enumerate(pcs) if i % 3 == ctx.seed % 3]
     for c in pcs:
